@@ -153,3 +153,72 @@ length_limit!(c10_interface_len255, InterfaceName<'_>, m::interface_name, b'a', 
 length_limit!(c10_error_len255, ErrorName<'_>, m::error_name, b'a', b'.');
 length_limit!(c10_member_len255, MemberName<'_>, m::member_name, b'a', b'a');
 length_limit!(c10_property_len255, PropertyName<'_>, m::property_name, b'a', b'a');
+
+// ---------------------------------------------------------------- route: Deserialize (D-Bus bytes -> name type)
+use zvariant::serialized::{Context, Data};
+
+pub fn no_close(_: &mut std::os::fd::OwnedFd) {}
+const UTF8_ERR: core::str::Utf8Error = match core::str::from_utf8(&[0xff]) {
+    Err(e) => e,
+    Ok(_) => panic!(),
+};
+/// std stub (byte-loop specification): the input of these harnesses is constrained to ASCII, for which UTF-8
+/// validity is "every byte < 0x80".
+pub fn ascii_from_utf8(v: &[u8]) -> core::result::Result<&str, core::str::Utf8Error> {
+    let mut i = 0;
+    while i < v.len() {
+        if v[i] >= 0x80 {
+            return Err(UTF8_ERR);
+        }
+        i += 1;
+    }
+    Ok(unsafe { core::str::from_utf8_unchecked(v) })
+}
+pub fn naive_memchr(x: u8, text: &[u8]) -> Option<usize> {
+    let mut i = 0;
+    while i < text.len() {
+        if text[i] == x {
+            return Some(i);
+        }
+        i += 1;
+    }
+    None
+}
+
+/// A well-formed D-Bus STRING (length L in 0..=3, text, NUL) at offset 0, little endian, with symbolic ASCII text:
+/// deserializing it as the name type succeeds exactly when the text is a valid name.
+macro_rules! deserialize_route {
+    ($h:ident, $ty:ty, $model:path) => {
+        #[kani::proof]
+        #[kani::unwind(9)]
+        #[kani::stub(alloc::fmt::format, no_format)]
+        #[kani::stub(<std::os::fd::OwnedFd as core::ops::Drop>::drop, no_close)]
+        #[kani::stub(core::str::from_utf8, ascii_from_utf8)]
+        #[kani::stub(core::slice::memchr::memchr, naive_memchr)]
+        fn $h() {
+            let t: [u8; 3] = kani::any();
+            kani::assume(t[0] != 0 && t[0] < 0x80 && t[1] != 0 && t[1] < 0x80 && t[2] != 0 && t[2] < 0x80);
+            let l: usize = kani::any();
+            kani::assume(l <= 3);
+            let mut buf = [0u8; 8];
+            buf[0] = l as u8;
+            let mut i = 0;
+            while i < l {
+                buf[4 + i] = t[i];
+                i += 1;
+            }
+            let data = Data::new(&buf[..4 + l + 1], Context::new_dbus(zvariant::LE, 0));
+            let r = data.deserialize::<$ty>();
+            let real = r.is_ok();
+            core::mem::forget(r);
+            core::mem::forget(data);
+            let model = $model(&t[..l]);
+            kani::cover!(real, "accepted");
+            kani::cover!(!real, "rejected");
+            assert!(real == model, "Deserialize acceptance differs from the spec grammar");
+        }
+    };
+}
+deserialize_route!(c10_member_deser3, MemberName<'_>, m::member_name);
+deserialize_route!(c10_unique_deser3, UniqueName<'_>, m::unique_name);
+deserialize_route!(c10_objpath_deser3, ObjectPath<'_>, m::object_path);
